@@ -12,7 +12,8 @@ use yuvxyb::*;
 
 const SS: [(u8, u8); 6] = [(0, 0), (1, 0), (1, 1), (0, 1), (2, 0), (2, 2)];
 /// padding triples (Y, U, V): equal and unequal, so that U and V get different strides and origins
-const PADS: [(usize, usize, usize); 7] = [(0, 0, 0), (3, 3, 3), (32, 32, 32), (0, 0, 17), (0, 17, 0), (17, 0, 33), (1, 32, 7)];
+/// per-plane paddings; an entry p pads both axes by p, 100+k pads x only by k, 200+k pads y only by k (frames::xypad)
+const PADS: [(usize, usize, usize); 11] = [(0, 0, 0), (3, 3, 3), (32, 32, 32), (0, 0, 17), (0, 17, 0), (17, 0, 33), (1, 32, 7), (108, 108, 108), (208, 208, 208), (101, 200, 132), (132, 101, 208)];
 
 fn bits_eq(a: &[[f32; 3]], b: &[[f32; 3]]) -> Option<usize> {
     if a.len() != b.len() {
@@ -47,13 +48,19 @@ fn build_yuv<T: Pixel>(img: &Img<T>, pad: (usize, usize, usize), junk: &mut Rng,
     let (cw, ch) = (img.w >> img.ss.0, img.h >> img.ss.1);
     let (sx, sy) = (img.ss.0 as usize, img.ss.1 as usize);
     let mut f: Frame<T> = Frame {
-        planes: [Plane::new(img.w, img.h, 0, 0, pad.0, pad.0), Plane::new(cw, ch, sx, sy, pad.1, pad.1), Plane::new(cw, ch, sx, sy, pad.2, pad.2)],
+        planes: [
+            Plane::new(img.w, img.h, 0, 0, crate::frames::xypad(pad.0).0, crate::frames::xypad(pad.0).1),
+            Plane::new(cw, ch, sx, sy, crate::frames::xypad(pad.1).0, crate::frames::xypad(pad.1).1),
+            Plane::new(cw, ch, sx, sy, crate::frames::xypad(pad.2).0, crate::frames::xypad(pad.2).1),
+        ],
     };
     let maxv = if std::mem::size_of::<T>() == 1 { 255 } else { (1u64 << cfg.bit_depth) - 1 };
+    // padding contents must not matter: junk from the whole range of the storage type (for u16 below 16 bit that
+    // includes values no visible sample may have), then the visible samples are written
+    let junk_max = if std::mem::size_of::<T>() == 1 { 255 } else { 65535 };
     for p in 0..3 {
-        // randomise the whole buffer (padding contents must not matter), then write the visible samples
         for v in f.planes[p].data.iter_mut() {
-            *v = T::cast_from(junk.below(maxv + 1) as u32);
+            *v = T::cast_from(junk.below(junk_max + 1) as u32);
         }
         let (pw, ph) = if p == 0 { (img.w, img.h) } else { (cw, ch) };
         let stride = f.planes[p].cfg.stride;
@@ -64,7 +71,14 @@ fn build_yuv<T: Pixel>(img: &Img<T>, pad: (usize, usize, usize), junk: &mut Rng,
             }
         }
     }
-    Yuv::new(f, cfg).expect("well-formed frame")
+    match Yuv::new(f, cfg) {
+        Ok(y) => y,
+        Err(e) => {
+            // (padding contents and per-plane paddings are the only things that vary here)
+            viol("well-formed-frame-rejected", format!("Yuv::new returned {e:?} for a well-formed {}x{} frame with paddings {pad:?} and arbitrary padding contents", img.w, img.h), J::obj().set("kind", "rejected").set("w", img.w).set("h", img.h).set("pad", [pad.0, pad.1, pad.2]));
+            panic!("well-formed frame rejected: {e:?}")
+        }
+    }
 }
 
 struct Counters {
@@ -209,7 +223,7 @@ fn yuv_source_checks<T: Pixel>(ctx: &Ctx, idx: u64, w: usize, h: usize, ss: (u8,
             planes: [img.planes[0].iter().rev().copied().collect(), img.planes[1].iter().rev().copied().collect(), img.planes[2].iter().rev().copied().collect()],
             _t: std::marker::PhantomData,
         };
-        if let Ok(rr) = Rgb::try_from(&build_yuv(&rimg, PADS[(idx % 7) as usize], &mut junk, cfg)) {
+        if let Ok(rr) = Rgb::try_from(&build_yuv(&rimg, PADS[(idx % 11) as usize], &mut junk, cfg)) {
             cnt.layout_checks.fetch_add(1, Relaxed);
             let n = w * h;
             if let Some(i) = (0..n).find(|&i| (0..3).any(|c| rr.data()[n - 1 - i][c].to_bits() != rgb.data()[i][c].to_bits())) {
